@@ -1549,6 +1549,40 @@ bool World::exec_foreign_op(const Step& s)
     auto arg = [&](size_t i) { return i < s.a.size() ? s.a[i] : 0; };
     if (!db || !plan.cfg.on_disk)
         return true;
+    if (s.op == "f_seq")
+    {
+        // second-party state: a 2.x library whose AUTOINCREMENT counters are far along (ids at and beyond the edges
+        // of 32-bit int and of what a double holds exactly).  Ids are int64 everywhere in the API; nothing else changes.
+        if (!v2)
+            return true;
+        static const int64_t bases[] = {2147483645ll, 2147483647ll, 4294967293ll, 4294967296ll, 9007199254740991ll, 4611686018427387904ll};
+        static const char* tables[] = {"Playlist", "Track", "PlaylistEntity"};
+        int64_t base = bases[(uint64_t)arg(0) % 6];
+        HDb d;
+        bool ok = d.open(db_path(*this, true), false);
+        std::string done;
+        for (int k = 0; ok && k < 3; ++k)
+        {
+            if (!((arg(1) >> k) & 1) && arg(1) % 8 != 0)
+                continue;
+            int64_t cur = -1;
+            d.run("SELECT seq FROM sqlite_sequence WHERE name = ?", {HDb::Bind::Text(tables[k])}, [&](sqlite3_stmt* st) { cur = sqlite3_column_int64(st, 0); });
+            if (cur >= base)
+                continue;
+            if (cur < 0)
+                ok = d.run("INSERT INTO sqlite_sequence (name, seq) VALUES (?, ?)", {HDb::Bind::Text(tables[k]), HDb::Bind::Int(base)});
+            else
+                ok = d.run("UPDATE sqlite_sequence SET seq = ? WHERE name = ?", {HDb::Bind::Int(base), HDb::Bind::Text(tables[k])});
+            done += std::string(" ") + tables[k];
+        }
+        d.close();
+        note("f_seq " + std::to_string(base) + ":" + done + (ok ? "" : " -> failed"));
+        log.str("f_seq");
+        gate_log.str("f_seq" + done);
+        if (ok && !done.empty())
+            probes.hit("foreign_large_ids");
+        return true;
+    }
     auto& FS = g_fstate[this];
     int ti = pick_live_track(arg(0));
     if (ti < 0)
